@@ -145,6 +145,23 @@ def run(ctx):
         "#EMPTY!, the seven error codes, plus PRNG-sampled numbers and strings, for the 13 operator "
         "names the compiled code passes to the fix-up function; distinct = distinct triple")
     calls = []
+    # operands that python's == identifies although their Excel types differ, applied back to
+    # back through the SAME operator closure (anything keyed by ==/hash would confuse them)
+    twins = [[1, True, 1.0, '1'], [0, False, 0.0, None, '#EMPTY!', '', '0'], [2, 2.0, '2', '2.0'],
+             [-8, -8.0, '-8', '-8.0']]
+    partners = [1, True, 0, False, 2.0, '2.0', '2', 'a', None, 0.5, -1]
+    for group in twins:
+        for b in partners:
+            for i, o in enumerate(OPS):
+                if o == 'USub':
+                    continue
+                for a in group:
+                    if o != 'Pow' or pow_ok(a, b):
+                        calls.append((a, i, o, b))
+                for a in group:
+                    if o != 'Pow' or pow_ok(b, a):
+                        calls.append((b, i, o, a))
+    n_twin_calls = len(calls)
     for l, r in itertools.product(values, values):
         for i, o in enumerate(OPS):
             if o == 'USub' and l != '#EMPTY!':
@@ -153,6 +170,13 @@ def run(ctx):
                 continue        # "numbers of moderate magnitude": keep x**y computable
             calls.append((l, i, o, r))
     impl = [run_impl(fixup, l, o, r) for (l, i, o, r) in calls]
+    # an operator is a function of its operands: the same application through a fresh closure
+    for (l, i, o, r), im in zip(calls[:n_twin_calls], impl[:n_twin_calls]):
+        alone = run_impl(build_operator_operand_fixup(lambda *a: None), l, o, r)
+        if alone != im:
+            ctx.violation(dict(call='fixup', args=[l, o, r], after='python-equal operands of another type'),
+                          "the result of an operator depends on what was evaluated before it",
+                          impl=im, expected=alone)
     model = [dec_res(x) for x in ctx.model.batch(
         [('fixup', [enc_val(l), i, enc_val(r)]) for (l, i, o, r) in calls])] if ctx.model else None
     unmodelled = 0
@@ -201,7 +225,10 @@ def run(ctx):
         return v
     for l, r in itertools.product(plain, plain):
         nl, nr = excel_number(l), excel_number(r)
-        for o in ('Add', 'Sub', 'Mult', 'Div'):
+        for o in ('Add', 'Sub', 'Mult', 'Div', 'Pow'):
+            if o == 'Pow' and (nl is None or nr is None or not pow_ok(nl, nr) or (nl == 0 and nr <= 0)
+                               or abs(nl) > 64 or abs(nr) > 8 or nr != int(nr)):
+                continue
             case = dict(call='fixup', args=[l, o, r])
             got = f(l, o, r)
             ctx.count(('arith', repr(l), o, repr(r)), kind='oracle-arith')
